@@ -325,6 +325,8 @@ PROPS["C05"] = {
         {"entry": "pkg/interp.VerifToBitsNestedRoot", "clause": "tobits/tobytes/tobytesrange/._bits/._bytes of every value of the trees of program nestedroot", "bounds": {"buffer_bytes": "0..6 symbolic"}},
         {"entry": "pkg/interp.VerifToBitsLoop", "clause": "tobits/tobytes/tobytesrange/._bits/._bytes of every value of the trees of program loop", "bounds": {"buffer_bytes": "0..6 symbolic"}},
         {"entry": "pkg/interp.VerifToBitsErrors", "clause": "tobits/tobytes/tobytesrange/._bits/._bytes of every value of the trees of program errors", "bounds": {"buffer_bytes": "0..6 symbolic"}},
+        {"entry": "pkg/interp.VerifBitsFormatStateless", "clause": "one bits_format formatter renders several values in a row (as tovalue / -V do for a tree): each is its own encoding, no state (e.g. a running digest) is carried from one value to the next", "bounds": {"values": "3 fixed binaries", "formats": "string hex base64 truncate md5"}},
+        {"entry": "pkg/interp.VerifToBitsRangedRoot", "clause": "a format decoded at a sub-range that does not start at bit 0 (`.x | format`): tobits/tobytes/._bits of the root and its fields are the input bits of their reported ranges", "bounds": {"buffer_bytes": 4, "range start": "0..17 bits"}},
         {"entry": "pkg/interp.VerifBitsFormat", "clause": "bits_format string/hex/base64/byte_array/truncate/md5 and raw display = reference encoding of the byte view", "bounds": {"buffer_bytes": 4, "start": "0..9", "len": "0..19", "pad": "0 or to byte boundary"}},
     ],
     "assumptions": ["the _bits/_bytes keys are read through decodeValueBase.JQValueKey (the code that builds the binary); the wrapper that first forces a raw leaf's lazy string is bypassed for raw leaves"],
